@@ -65,8 +65,8 @@ mod verif_c20_recursive_addr {
     // ------------------------------------------------------------------ level 3
 
     #[kani::requires(r < 512)]
-    #[kani::ensures(|res: &(u64, u64)| ob("C20.p3_page.r_r_r_p4_sign_extended", res.0 == want_p3(start_of(x, 4096), r as u64))
-        && ob("C20.p3_ptr.same_address_as_pointer", res.1 == want_p3(start_of(x, 4096), r as u64)))]
+    #[kani::ensures(|res: &(u64, u64)| ob("C20.p3_page.r_r_r_p4_sign_extended", res.0 == want_p3(start_of(x, 4096), r as u64)))]
+    #[kani::ensures(|res: &(u64, u64)| ob("C20.p3_ptr.same_address_as_pointer", res.1 == want_p3(start_of(x, 4096), r as u64)))]
     fn w_p3_4k(x: u64, r: u16) -> (u64, u64) {
         let page = page_of::<Size4KiB>(x);
         let ri = PageTableIndex::new(r);
@@ -82,8 +82,8 @@ mod verif_c20_recursive_addr {
     }
 
     #[kani::requires(r < 512)]
-    #[kani::ensures(|res: &(u64, u64)| ob("C20.p3_page.r_r_r_p4_sign_extended", res.0 == want_p3(start_of(x, 0x20_0000), r as u64))
-        && ob("C20.p3_ptr.same_address_as_pointer", res.1 == want_p3(start_of(x, 0x20_0000), r as u64)))]
+    #[kani::ensures(|res: &(u64, u64)| ob("C20.p3_page.r_r_r_p4_sign_extended", res.0 == want_p3(start_of(x, 0x20_0000), r as u64)))]
+    #[kani::ensures(|res: &(u64, u64)| ob("C20.p3_ptr.same_address_as_pointer", res.1 == want_p3(start_of(x, 0x20_0000), r as u64)))]
     fn w_p3_2m(x: u64, r: u16) -> (u64, u64) {
         let page = page_of::<Size2MiB>(x);
         let ri = PageTableIndex::new(r);
@@ -99,8 +99,8 @@ mod verif_c20_recursive_addr {
     }
 
     #[kani::requires(r < 512)]
-    #[kani::ensures(|res: &(u64, u64)| ob("C20.p3_page.r_r_r_p4_sign_extended", res.0 == want_p3(start_of(x, 0x4000_0000), r as u64))
-        && ob("C20.p3_ptr.same_address_as_pointer", res.1 == want_p3(start_of(x, 0x4000_0000), r as u64)))]
+    #[kani::ensures(|res: &(u64, u64)| ob("C20.p3_page.r_r_r_p4_sign_extended", res.0 == want_p3(start_of(x, 0x4000_0000), r as u64)))]
+    #[kani::ensures(|res: &(u64, u64)| ob("C20.p3_ptr.same_address_as_pointer", res.1 == want_p3(start_of(x, 0x4000_0000), r as u64)))]
     fn w_p3_1g(x: u64, r: u16) -> (u64, u64) {
         let page = page_of::<Size1GiB>(x);
         let ri = PageTableIndex::new(r);
@@ -118,8 +118,8 @@ mod verif_c20_recursive_addr {
     // ------------------------------------------------------------------ level 2
 
     #[kani::requires(r < 512)]
-    #[kani::ensures(|res: &(u64, u64)| ob("C20.p2_page.r_r_p4_p3_sign_extended", res.0 == want_p2(start_of(x, 4096), r as u64))
-        && ob("C20.p2_ptr.same_address_as_pointer", res.1 == want_p2(start_of(x, 4096), r as u64)))]
+    #[kani::ensures(|res: &(u64, u64)| ob("C20.p2_page.r_r_p4_p3_sign_extended", res.0 == want_p2(start_of(x, 4096), r as u64)))]
+    #[kani::ensures(|res: &(u64, u64)| ob("C20.p2_ptr.same_address_as_pointer", res.1 == want_p2(start_of(x, 4096), r as u64)))]
     fn w_p2_4k(x: u64, r: u16) -> (u64, u64) {
         let page = page_of::<Size4KiB>(x);
         let ri = PageTableIndex::new(r);
@@ -135,8 +135,8 @@ mod verif_c20_recursive_addr {
     }
 
     #[kani::requires(r < 512)]
-    #[kani::ensures(|res: &(u64, u64)| ob("C20.p2_page.r_r_p4_p3_sign_extended", res.0 == want_p2(start_of(x, 0x20_0000), r as u64))
-        && ob("C20.p2_ptr.same_address_as_pointer", res.1 == want_p2(start_of(x, 0x20_0000), r as u64)))]
+    #[kani::ensures(|res: &(u64, u64)| ob("C20.p2_page.r_r_p4_p3_sign_extended", res.0 == want_p2(start_of(x, 0x20_0000), r as u64)))]
+    #[kani::ensures(|res: &(u64, u64)| ob("C20.p2_ptr.same_address_as_pointer", res.1 == want_p2(start_of(x, 0x20_0000), r as u64)))]
     fn w_p2_2m(x: u64, r: u16) -> (u64, u64) {
         let page = page_of::<Size2MiB>(x);
         let ri = PageTableIndex::new(r);
@@ -154,8 +154,8 @@ mod verif_c20_recursive_addr {
     // ------------------------------------------------------------------ level 1
 
     #[kani::requires(r < 512)]
-    #[kani::ensures(|res: &(u64, u64)| ob("C20.p1_page.r_p4_p3_p2_sign_extended", res.0 == want_p1(start_of(x, 4096), r as u64))
-        && ob("C20.p1_ptr.same_address_as_pointer", res.1 == want_p1(start_of(x, 4096), r as u64)))]
+    #[kani::ensures(|res: &(u64, u64)| ob("C20.p1_page.r_p4_p3_p2_sign_extended", res.0 == want_p1(start_of(x, 4096), r as u64)))]
+    #[kani::ensures(|res: &(u64, u64)| ob("C20.p1_ptr.same_address_as_pointer", res.1 == want_p1(start_of(x, 4096), r as u64)))]
     fn w_p1_4k(x: u64, r: u16) -> (u64, u64) {
         let page = page_of::<Size4KiB>(x);
         let ri = PageTableIndex::new(r);
